@@ -647,13 +647,15 @@ func scopesC11(thorough bool) []scope {
 			{Name: "L<=3 N=1 all schedules", Targets: 1, Streams: c11Streams(1, 3), Bound: -1, Slow: true},
 			{Name: "L<=2 N=2 all schedules", Targets: 2, Streams: c11Streams(2, 2), Bound: -1, Slow: true},
 			{Name: "L<=3 N=2 <=3 preemptions", Targets: 2, Streams: c11Streams(2, 3), Bound: 3, Slow: true},
-			{Name: "L<=2 N=3 <=2 preemptions", Targets: 3, Streams: c11Streams(3, 2), Bound: 2, Slow: true},
-			{Name: "L<=3 N=3 <=2 preemptions", Targets: 3, Streams: c11Streams(3, 3), Bound: 2},
 			{Name: "L<=2 N=4 <=1 preemption", Targets: 4, Streams: c11Streams(4, 2), Bound: 1},
 			{Name: "L<=1 N=5 <=1 preemption", Targets: 5, Streams: c11Streams(5, 1), Bound: 1},
-			{Name: "L=4 N=3 <=1 preemption", Targets: 3, Streams: c11Streams(3, 4), Bound: 1},
 			{Name: "L=40 N=1 <=2 deviations", Targets: 1, Streams: longStreams(1, 40), Bound: 2, Strict: true},
 			{Name: "L=40 N=3 <=1 deviation", Targets: 3, Streams: longStreams(3, 40), Bound: 1, Strict: true},
+			{Name: "L=4 N=3 <=1 preemption", Targets: 3, Streams: c11Streams(3, 4), Bound: 1},
+			{Name: "L<=3 N=3 <=1 preemption", Targets: 3, Streams: c11Streams(3, 3), Bound: 1},
+			// largest scopes last: the deadline cuts only these short (the evidence says how far they got)
+			{Name: "L<=2 N=3 <=2 preemptions", Targets: 3, Streams: c11Streams(3, 2), Bound: 2, Slow: true},
+			{Name: "L<=3 N=3 <=2 preemptions", Targets: 3, Streams: c11Streams(3, 3), Bound: 2},
 		}
 	}
 	return []scope{
